@@ -501,6 +501,37 @@ Proof.
   - intro Hev. pose proof (backward_no_mid d k2 buf2 Hd Hk2 HI2 Hev). specialize (He Hev).
     destruct (even_delta_ex Hev) as [q Hq]. unfold Dtot in *. lia.
 Qed.
+(* the search always finds a snake: log.Fatal("no snake") and the model's fuel exhaustion are unreachable *)
+Lemma middle_loop_total : forall fuel d ps pl buf, 0 <= d -> FI d (lo d) buf ->
+  ((d = 0 /\ ps = 0 /\ pl = 0) \/ (1 <= d /\ ps = lo (d - 1) /\ pl = hi (d - 1))) ->
+  (Z.odd delta = true -> 2 * d - 1 <= Dtot a b) ->
+  (Z.odd delta = false -> 2 * d <= Dtot a b) ->
+  Dtot a b + 2 <= 2 * (d + Z.of_nat fuel) ->
+  exists ai bi s buf', middle_loop a b fuel d ps pl buf = MidFound ai bi s buf'.
+Proof.
+  induction fuel as [|f IH]; intros d ps pl buf Hd HI Hps Ho He Hfuel.
+  { exfalso. destruct (Z.odd delta); [specialize (Ho eq_refl)|specialize (He eq_refl)]; lia. }
+  rewrite middle_loop_S.
+  pose proof Dtot_bounds as [Db1 Db2].
+  assert (H2d : 2 * d <= m + n + 1) by (destruct (Z.odd delta); [specialize (Ho eq_refl)|specialize (He eq_refl)]; lia).
+  destruct (Z.gtb_spec d mx) as [Hgt|_]; [exfalso; pose proof mx_bounds; lia|].
+  assert (Hfu : hi d - lo d < 2 * Z.of_nat fuelN) by (unfold zlen in *; win_lia).
+  pose proof (forward_pass d ps pl Hd H2d Ho Hps fuelN (lo d) buf HI (same_par_lo d) (Z.le_refl _) Hfu) as HF.
+  destruct (forward a b fuelN d (lo d) (hi d) ps pl buf) as [buf1 [[[ai1 bi1] s1]|]]; [eauto|].
+  destruct HF as [k1 [Hk1 HI1]].
+  pose proof (backward_pass d Hd H2d He fuelN (lo d) buf1 (FI_end_BI d k1 buf1 Hk1 HI1) (same_par_lo d) (Z.le_refl _) Hfu) as HB.
+  destruct (backward a b fuelN d (lo d) (lo d) (hi d) buf1) as [buf2 [[[ai2 bi2] s2]|]]; [eauto|].
+  destruct HB as [k2 [Hk2 HI2]].
+  apply (IH (d + 1) (lo d) (hi d) buf2); try assumption.
+  - lia.
+  - eapply BI_end_FI; eauto.
+  - right. replace (d + 1 - 1) with d by lia. repeat split; lia.
+  - intro Hodd. pose proof (forward_no_mid d k1 buf1 Hd Hk1 HI1 Hodd). specialize (Ho Hodd).
+    destruct (odd_delta_ex Hodd) as [q Hq]. unfold Dtot in *. lia.
+  - intro Hev. pose proof (backward_no_mid d k2 buf2 Hd Hk2 HI2 Hev). specialize (He Hev).
+    destruct (even_delta_ex Hev) as [q Hq]. unfold Dtot in *. lia.
+  - lia.
+Qed.
 End Myers.
 
 (* ---------- middle: initialisation, and the final theorem ---------- *)
@@ -510,23 +541,42 @@ Lemma middle_unfold a b buf :
     (setb (setb buf ((zlen a + zlen b + 2) / 2 + 1) 0) (2 * ((zlen a + zlen b + 2) / 2) + (zlen a + zlen b + 2) / 2 + 1) 0).
 Proof. reflexivity. Qed.
 
+Lemma middle_init_FI a b buf : 2 <= zlen a -> 2 <= zlen b -> 2 * (zlen a + zlen b + 2) <= zlen buf ->
+  FI a b (zlen buf) 0 (lo b 0)
+    (setb (setb buf ((zlen a + zlen b + 2) / 2 + 1) 0) (2 * ((zlen a + zlen b + 2) / 2) + (zlen a + zlen b + 2) / 2 + 1) 0).
+Proof.
+  intros Hm Hn Hbuf. pose proof (mx_bounds a b) as Hmx.
+  assert (Hlo : lo b 0 = 0) by (unfold lo; destruct (Z.gtb_spec 0 (zlen b)); lia).
+  rewrite Hlo. constructor.
+  - now rewrite !zlen_setb.
+  - intros; lia.
+  - intros; lia.
+  - intros; lia.
+  - intros _. rewrite (V1_write2 a b (zlen buf)); [|now rewrite zlen_setb|lia|lia].
+    rewrite (V1_write a b (zlen buf)); [reflexivity|reflexivity|lia].
+  - intros _. rewrite (V2_write a b (zlen buf)); [reflexivity|now rewrite zlen_setb|lia].
+  - intros; lia.
+Qed.
+
+Theorem middle_total a b buf : 2 <= zlen a -> 2 <= zlen b -> 2 * (zlen a + zlen b + 2) <= zlen buf ->
+  exists ai bi s buf', middle a b buf = MidFound ai bi s buf'.
+Proof.
+  intros Hm Hn Hbuf. rewrite middle_unfold. pose proof (Dtot_bounds a b).
+  eapply (middle_loop_total a b Hm Hn (zlen buf) Hbuf _ 0 0 0 _ (Z.le_refl 0)).
+  - now apply middle_init_FI.
+  - left. repeat split.
+  - intros _. lia.
+  - intros _. lia.
+  - unfold zlen in *. lia.
+Qed.
+
 Theorem middle_optimal : mid_optimal middle.
 Proof.
   intros a b buf ai bi s buf' Hm Hn Hbuf H.
   assert (Hopt : zlen buf' = zlen buf /\ Opt a b ai bi s).
   { rewrite middle_unfold in H.
-    pose proof (mx_bounds a b) as Hmx.
     eapply (middle_loop_ok a b Hm Hn (zlen buf) Hbuf _ 0 0 0 _ (Z.le_refl 0)); [| | | |exact H].
-    - assert (Hlo : lo b 0 = 0) by (unfold lo; destruct (Z.gtb_spec 0 (zlen b)); lia).
-      rewrite Hlo. constructor.
-      + now rewrite !zlen_setb.
-      + intros; lia.
-      + intros; lia.
-      + intros; lia.
-      + intros _. rewrite (V1_write2 a b (zlen buf)); [|now rewrite zlen_setb|lia|lia].
-        rewrite (V1_write a b (zlen buf)); [reflexivity|reflexivity|lia].
-      + intros _. rewrite (V2_write a b (zlen buf)); [reflexivity|now rewrite zlen_setb|lia].
-      + intros; lia.
+    - now apply middle_init_FI.
     - left. repeat split.
     - intros _. pose proof (Dtot_bounds a b). lia.
     - intros _. pose proof (Dtot_bounds a b). lia. }
